@@ -4,7 +4,8 @@
 (* after the start-up write/poll or of a freshly constructed module           *)
 (* (before any update of the index).  Observed per event: idx, hw, val (the   *)
 (* module attribute), vidx / vval (client's view of the update stream, -1 =   *)
-(* nothing delivered yet), rep (value replied / returned, -1 = refused),      *)
+(* nothing delivered yet), rep (value replied / returned, -1 = refused), req  *)
+(* (index last requested from the driver's write method, -1 = none so far),   *)
 (* and pval: what a client read of the float shows afterwards (-2 = the       *)
 (* harness did not ask; asking is a ReadFloat, which changes nothing).        *)
 EXTENDS LinkedFloatEnum, Json, IOUtils, TLCExt, Sequences
@@ -21,7 +22,8 @@ Shown(e, i, v) == /\ e.idx = i /\ e.val = v
 
 TInit == /\ t \in 1 .. NT /\ l = 2
          /\ LET e == Traces[t][1] IN
-              /\ tab = e.tab /\ shape = e.shape
+              /\ tab = e.tab /\ shape = e.shape /\ mode = e.mode /\ req = 0 - 1
+              /\ e.mode \in {"echo", "none", "clamp", "raise"} /\ e.cap = Cap
               /\ e.tab \in TableNames
               /\ idx = e.idx /\ hw = e.hw /\ val = Tab(e.tab)[e.idx] /\ last = "ok"
               /\ Shown(e, idx, val)
@@ -29,9 +31,9 @@ TInit == /\ t \in 1 .. NT /\ l = 2
 TStep ==
   /\ l <= Len(Traces[t])
   /\ l' = l + 1 /\ t' = t
-  /\ idx' = Ev.idx /\ hw' = Ev.hw /\ val' = Ev.val /\ last' = Ev.last
+  /\ idx' = Ev.idx /\ hw' = Ev.hw /\ req' = Ev.req /\ val' = Ev.val /\ last' = Ev.last
   /\ \/ Ev.ev = "wf" /\ WriteFloat(Ev.x) /\ Ev.rep = (IF last' = "ok" THEN val' ELSE 0 - 1)
-     \/ Ev.ev = "wi" /\ WriteIdx(Ev.i) /\ Ev.rep = idx'
+     \/ Ev.ev = "wi" /\ WriteIdx(Ev.i) /\ Ev.rep = (IF last' = "ok" THEN idx' ELSE 0 - 1)
      \/ Ev.ev = "ai" /\ AssignIdx(Ev.i)
      \/ Ev.ev = "ri" /\ ReadIdx /\ Ev.rep = idx'
      \/ Ev.ev = "rf" /\ ReadFloat /\ Ev.rep = val'
